@@ -353,17 +353,53 @@ pub fn run(op: &str, a: &[&str]) -> Option<String> {
         ("opt.hdr_elems", [e]) => {
             let es = parse_elems(e)?;
             let mut h = TcpHeader::default();
-            match h.set_options(&es) {
+            let main = match h.set_options(&es) {
                 Ok(()) => show_header(&h),
                 Err(e) => show_werr(&e),
+            };
+            // the same call on a header that has a history (a long area, a short one, a failed call): the result has
+            // to be the one on a fresh header - nothing of what was set before may show
+            let mut used = TcpHeader::default();
+            let _ = used.set_options_raw(&[0xaa; 40]);
+            let _ = used.set_options_raw(&[0xbb; 12]);
+            let _ = used.set_options_raw(&[0xcc; 44]);
+            let again = match used.set_options(&es) {
+                Ok(()) => show_header(&used),
+                Err(e) => show_werr(&e),
+            };
+            if again != main || (main.starts_with("ok(") && used != h) {
+                format!("{}!routes-differ(on_used_header={})", main, again)
+            } else {
+                main
             }
         }
         ("opt.hdr_raw", [x]) => {
             let b = hex(x)?;
             let mut h = TcpHeader::default();
-            match h.set_options_raw(&b) {
+            let main = match h.set_options_raw(&b) {
                 Ok(()) => show_header(&h),
                 Err(e) => show_werr(&e),
+            };
+            let mut used = TcpHeader::default();
+            let _ = used.set_options_raw(&[0xaa; 40]);
+            let _ = used.set_options_raw(&[0xbb; 12]);
+            let _ = used.set_options_raw(&[0xcc; 44]);
+            let again = match used.set_options_raw(&b) {
+                Ok(()) => show_header(&used),
+                Err(e) => show_werr(&e),
+            };
+            // and through the element setter in between
+            let mut used2 = TcpHeader::default();
+            let _ = used2.set_options(&[TcpOptionElement::Timestamp(0xdddddddd, 0xeeeeeeee), TcpOptionElement::Timestamp(0xdddddddd, 0xeeeeeeee), TcpOptionElement::Timestamp(0xdddddddd, 0xeeeeeeee)]);
+            let _ = used2.set_options(&[TcpOptionElement::Noop]);
+            let again2 = match used2.set_options_raw(&b) {
+                Ok(()) => show_header(&used2),
+                Err(e) => show_werr(&e),
+            };
+            if again != main || again2 != main || (main.starts_with("ok(") && (used != h || used2 != h)) {
+                format!("{}!routes-differ(on_used_header={};{})", main, again, again2)
+            } else {
+                main
             }
         }
         _ => return None,
